@@ -104,6 +104,9 @@ func propC08(c *Ctx, r *Report) {
 	r.floor("call.usershadow", 1)
 	c.runInnerFirst(r, "lookup.innerfirst", "wgsl/internal/lower", nil)
 	r.floor("lookup.innerfirst", 2)
+	r.Clauses = append(r.Clauses, leaveCleanClause+" - the mirror case rejects a valid program (a true const_assert fails)")
+	c.runLeaveClean(r, "scope.leaveclean", lowerResetScopes[0])
+	r.floor("scope.leaveclean", 1)
 	r.floor("lookup.functionScopeTables", 5)
 	r.Clauses = append(r.Clauses, "template list ends (E49): every expectation of the '>' that closes a template list goes through the one helper that also splits '>>', '>=' and '>>='")
 	c.runTemplateClose(r, "template.close", "wgsl/internal/parser")
